@@ -47,16 +47,25 @@ def cond_fingerprint(node):
     return ast.dump(R().visit(copy.deepcopy(node)))
 
 
-def skolemize(claim):
+_skd_counter = [0]
+
+
+def skolemize(claim, definitional=False):
     """Replace universally quantified variables in positive position of a claim by
-    fresh constants (proving P(c) for an arbitrary c proves forall x. P(x))."""
+    fresh constants (proving P(c) for an arbitrary c proves forall x. P(x)).
+    definitional: the formula is the body of an unfolded specification function (names are made
+    globally unique, `skd!..`, and if-then-else is descended into)."""
     skolems = []
 
     def go(t):
         if z3.is_quantifier(t) and t.is_forall():
             cs = []
             for i in range(t.num_vars()):
-                c = z3.Const('sk!%d_%s' % (len(skolems), t.var_name(i)), t.var_sort(i))
+                if definitional:
+                    _skd_counter[0] += 1
+                    c = z3.Const('skd!%d_%s' % (_skd_counter[0], t.var_name(i)), t.var_sort(i))
+                else:
+                    c = z3.Const('sk!%d_%s' % (len(skolems), t.var_name(i)), t.var_sort(i))
                 skolems.append(c)
                 cs.append(c)
             # de Bruijn: var 0 is the LAST bound variable
@@ -65,6 +74,8 @@ def skolemize(claim):
             return z3.And([go(c) for c in t.children()])
         if z3.is_implies(t):
             return z3.Implies(t.arg(0), go(t.arg(1)))
+        if definitional and z3.is_app_of(t, z3.Z3_OP_ITE) and t.sort() == z3.BoolSort():
+            return z3.If(t.arg(0), go(t.arg(1)), go(t.arg(2)))
         return t
     try:
         return go(claim), skolems
@@ -129,8 +140,39 @@ class ExprMixin:
         ob = Obligation(self.fn_name, kind, label, st.pc + st.facts + inst, claim, st.trail,
                         carries=carries, info=info,
                         lineno=getattr(node, 'lineno', None))
+        ob.fact_ids = frozenset(t.get_id() for t in st.facts)
         self.obls.append(ob)
         st.assume(claim0)
+
+    def definitional_skolems(self, st):
+        """Skolem constants introduced when a Boolean specification function with a quantified body
+        was unfolded (`body at fresh constants  ==>  application`): the quantified assumptions of the
+        path are instantiated at them too."""
+        if not hasattr(self, '_skd_cache'):
+            self._skd_cache = {}
+        out, seen = [], set()
+        for f in st.facts:
+            k = f.get_id()
+            if k not in self._skd_cache:
+                found = []
+                todo, vis = [f], set()
+                while todo:
+                    x = todo.pop()
+                    if x.get_id() in vis:
+                        continue
+                    vis.add(x.get_id())
+                    if z3.is_quantifier(x):
+                        todo.append(x.body())
+                    elif z3.is_app(x):
+                        if x.num_args() == 0 and x.decl().kind() == z3.Z3_OP_UNINTERPRETED and x.decl().name().startswith('skd!'):
+                            found.append(x)
+                        todo.extend(x.children())
+                self._skd_cache[k] = (found, f)
+            for c in self._skd_cache[k][0]:
+                if c.get_id() not in seen:
+                    seen.add(c.get_id())
+                    out.append(c)
+        return out[:12]
 
     def instantiate_foralls(self, st, skolems=()):
         """Instances of the universally quantified assumptions (class / loop invariants over
@@ -147,38 +189,59 @@ class ExprMixin:
         for t in self.extra_inst_terms:
             (ints if t.sort() == z3.IntSort() else strs if t.sort() == z3.StringSort() else []).append(t)
         # the Skolem constants of the claim come FIRST: they are the instances a proof needs
-        ints = [s for s in skolems if s.sort() == z3.IntSort()] + ints
-        strs = [s for s in skolems if s.sort() == z3.StringSort()] + strs
-        if not ints and not strs:
+        sk_ints = [s for s in skolems if s.sort() == z3.IntSort()][:6]
+        ints_all = sk_ints + ints
+        strs = [s for s in skolems if s.sort() == z3.StringSort()][:5] + strs
+        if not ints_all and not strs:
             return ()
         isort, ssort = z3.IntSort(), z3.StringSort()
 
         def pool(sort, wide):
             if sort == isort:
-                return [x for c in ints for x in ((c, c + 1, c - 1) if wide else (c,))]
+                # Skolem constants as they are; integer locals (loop indices) also at their neighbours
+                return list(sk_ints) + [x for c in ints for x in ((c, c - 1, c + 1) if wide else (c,))]
             if sort == ssort:
                 return strs
             return None
         out = []
         def guarded(gs, body):
             return z3.Implies(z3.And(list(gs)), body) if gs else body
-        for t in st.pc:
+        # two rounds: an instance may itself be (a conjunction / implication ending in) a universally
+        # quantified formula - a class invariant of another object stated as `forall i. ... forall x, j. ...`
+        # (facts are scanned too: `application ==> body` of an unfolded Boolean specification function)
+        todo = list(st.pc) + [f for f in st.facts if z3.is_implies(f) and _has_quantifier(f)]
+        sk_ids = {c.get_id() for c in skolems}
+        nested = []        # instances at Skolem constants that are quantified themselves: second round
+        for round_ in (0, 1):
+          start = len(out)
+          nested = []
+          for t in todo:
             for gs, q in _top_foralls(t):
                 n = q.num_vars()
                 if n == 1:
                     p = pool(q.var_sort(0), True)
                     for inst in (p or ()):
                         out.append(guarded(gs, z3.substitute_vars(q.body(), inst)))
+                        if inst.get_id() in sk_ids and _has_quantifier(out[-1]):
+                            nested.append(out[-1])
                 elif n == 2:
                     # substitute_vars: Var(0) is the LAST declared variable
-                    pa = pool(q.var_sort(1), False)      # Var(0) = second declared variable
-                    pb = pool(q.var_sort(0), False)      # Var(1) = first declared variable
+                    # (index locals of a for loop hold i + 1 at the end of an iteration while the
+                    # element handled was at i: the neighbours c - 1 / c + 1 are candidates too)
+                    pa = pool(q.var_sort(1), True)       # Var(0) = second declared variable
+                    pb = pool(q.var_sort(0), True)       # Var(1) = first declared variable
                     if pa is None or pb is None:
                         continue
-                    for a in pa[:8]:
-                        for b in pb[:8]:
+                    for a in pa[:12]:
+                        for b in pb[:12]:
                             if not z3.eq(a, b):
                                 out.append(guarded(gs, z3.substitute_vars(q.body(), a, b)))
+          # second round: first the quantified instances taken at the claim's Skolem constants (they
+          # are the ones a proof needs), then the others, up to a cap
+          ids_ = {t.get_id() for t in nested}
+          todo = (nested + [t for t in out[start:] if t.get_id() not in ids_ and _has_quantifier(t)])[:90]
+          if not todo:
+              break
         return tuple(out)
 
     def instantiate_frames(self, st, claim):
@@ -426,7 +489,35 @@ class ExprMixin:
             k, v = self.dict_kv(ty.cls)
             self.write_field(st, r, ty.cls, 'items', coerce(sv, TMap(k, v), self.classes))
             return r
+        if isinstance(sv.ty, TSeq) and sv.t is not None and sv.ty.elem is not TBottom:
+            from .values import _LITERALS
+            if sv.t.get_id() not in _LITERALS:
+                if isinstance(ty, TSeq) and ty != sv.ty:
+                    w = self.widen_seq(st, sv, ty)
+                    if w is not None:
+                        return w
+                if isinstance(ty, TUnion) and ty.tag_of(sv.ty) is None:
+                    for tg, alt in ty.alts:
+                        if isinstance(alt, TSeq):
+                            w = self.widen_seq(st, sv, alt)
+                            if w is not None:
+                                return SV(ty, ty.inject(tg, box(w)))
         return coerce(sv, ty, self.classes)
+
+    def widen_seq(self, st, sv, ty):
+        """A sequence value used where a sequence of a WIDER element type is declared (a list of
+        converted values stored in a slot whose lists hold tagged items): a new sequence of the same
+        length whose elements are the injections of the original ones."""
+        k = z3.Int(self.fresh_sym('wk'))
+        try:
+            el = coerce(unbox(sv.ty.elem, snth(sv.ty.elem, sv.t, k)), ty.elem, self.classes)
+        except TypeMismatch:
+            return None
+        w = fresh(ty, 'widened')
+        st.assume(z3.Length(w.t) == z3.Length(sv.t))
+        st.fact(z3.ForAll([k], z3.Implies(z3.And(k >= 0, k < z3.Length(sv.t)),
+                                           snth(ty.elem, w.t, k) == box(el))))
+        return w
 
     def coerce_checked(self, st, sv, ty, node, what):
         """coerce; an Optional used where a plain value is required becomes a
@@ -642,11 +733,11 @@ class ExprMixin:
         kk = coerce(k, m.ty.k, self.classes)
         return unbox(m.ty.v, z3.Select(m.ty.vals(m.t), box(kk)))
 
-    def map_set(self, m, k, v):
+    def map_set(self, m, k, v, st=None):
         if m.ty.k is TBottom:
             m = SV(TMap(k.ty, v.ty), empty_map(TMap(k.ty, v.ty)))
         kk = box(coerce(k, m.ty.k, self.classes))
-        vv = box(coerce(v, m.ty.v, self.classes))
+        vv = box(self.coerce(st, v, m.ty.v) if st is not None else coerce(v, m.ty.v, self.classes))
         keys = m.ty.keys(m.t)
         nkeys = z3.If(z3.Contains(keys, sunit(m.ty.k, kk)), keys, z3.Concat(keys, sunit(m.ty.k, kk)))
         return SV(m.ty, m.ty.mk(nkeys, z3.Store(m.ty.vals(m.t), kk, vv)))
